@@ -577,6 +577,9 @@ func parseCtr(obs string, g *storeSessGen) {
 	}
 }
 
+// allowSQLInter: set by the generator of family store; the crash family (which shares genStoreOp) has no use for `sqlinter`
+var allowSQLInter bool
+
 // genStoreOp emits one random store op for session g (kind-aware) and returns the op name.
 func genStoreOp(r *rng, kind string, g *storeSessGen, o *out, do func(string) string) string {
 	persistent := kind != "mem"
@@ -620,7 +623,7 @@ func genStoreOp(r *rng, kind string, g *storeSessGen, o *out, do func(string) st
 	}
 	var op, name string
 	switch {
-	case kind == "sql" && r.chance(1, 7):
+	case allowSQLInter && kind == "sql" && r.chance(1, 7):
 		// the engine's event loop books an inbound message (target side) while a sending goroutine saves an outbound one
 		// (sender side), or the other way round: the second op runs to completion when the first is about to execute its
 		// first SQL statement; afterwards a fresh store on the same database has to answer like the live one
@@ -707,6 +710,7 @@ func genStoreOp(r *rng, kind string, g *storeSessGen, o *out, do func(string) st
 }
 
 func genStore(r *rng, tier string, idx int, o *out, do func(string) string) string {
+	allowSQLInter = true
 	var kind string
 	switch c := r.intn(20); {
 	case c < 4:
